@@ -1077,8 +1077,17 @@ def correspondence(chk, cases, rng, tier):
             # and the oracle on these as well
             res = [abs(numpy.dot(impl - gref, uz)), abs(numpy.linalg.norm(impl - arp) - r),
                    abs(-numpy.dot(varp, impl - arp) / numpy.linalg.norm(impl - arp) - rdot) * r / numpy.linalg.norm(varp)]
+            inp = [arp.tolist(), varp.tolist(), r, rdot, gref.tolist(), uz.tolist()]
             if max(res) > ALARM_M:
-                corr.disagree.append({'msg': f'random plane case: implementation residuals {res}', 'oracle': True})
+                corr.disagree.append({'msg': f'random plane case: implementation residuals {res}', 'oracle': True, 'input': inp})
+            # of the two intersections of the R/Rdot contour with the plane (mirror images about the ground track) the one on the
+            # reference point's side is the projection (Volume 3: LOOK is taken from the ground reference point)
+            side_ref = float(numpy.dot(numpy.cross(arp - gref, varp), uz))
+            side_got = float(numpy.dot(numpy.cross(arp - impl, varp), uz))
+            scale = float(numpy.linalg.norm(arp - gref) * numpy.linalg.norm(varp))
+            if abs(side_ref) > 1e-6 * scale and abs(side_got) > 1e-6 * scale and side_ref * side_got < 0:
+                corr.disagree.append({'msg': f'_image_to_ground_plane_perform returns the mirror intersection: the point {impl.tolist()} lies on the other side of '
+                                             f'the ground track than the ground reference point (plane normal {uz.tolist()})', 'oracle': True, 'input': inp})
         corr.n += 1
     for n, ln, seen, i in blk:
         if ans[i] != '[' + ','.join(str(x) for x in seen) + ']':
@@ -1189,7 +1198,10 @@ def run(tier):
     unknown.sort(key=lambda f: -f.get('worst', 0) if math.isfinite(f.get('worst', 0)) else -1e300)
     for f in unknown[:5]:
         chk.violation(f['msg'], {'case': f, 'replay_cmd': './check C04 --replay <this file>'}, True)
-    if not unknown and (broken or disagreements):
+    oracle_dis = [d for d in disagreements if d.get('oracle')]
+    for d in oracle_dis[:max(0, 5 - len(unknown[:5]))]:
+        chk.violation(d['msg'], {'case': d, 'replay_cmd': 'input = [ARP, VARP, R, Rdot, ground reference point, plane normal] of sarpy.geometry.point_projection._image_to_ground_plane_perform'}, True)
+    if not unknown and not oracle_dis and (broken or disagreements):
         chk.violation('proof obligation or correspondence no longer checks: ' + '; '.join(broken[:3] + [d['msg'][:200] for d in disagreements[:2]]),
                       {'broken_obligations': broken, 'disagreements': disagreements[:10]}, False)
     return chk.finish()
